@@ -10,6 +10,7 @@ func init() {
 	vHarness["C02_pop"] = VerifHarness_C02_pop
 	vHarness["C02_cycle"] = VerifHarness_C02_cycle
 	vHarness["C02_cycle_canary"] = VerifHarness_C02_cycle_canary
+	vHarness["C02_cycle3"] = VerifHarness_C02_cycle3
 	vHarness["C02_run"] = VerifHarness_C02_run
 	vHarness["C02_split"] = VerifHarness_C02_split
 }
@@ -175,7 +176,10 @@ func (t *vPopTrace) Report(r Report) {
 	t.ran[r.WarriorIndex] = true
 }
 
-func vC02cycle(canary bool) {
+func vC02cycle(canary bool)      { vC02cycleX(canary, false) }
+func VerifHarness_C02_cycle3() { vC02cycleX(false, true) }
+
+func vC02cycleX(canary bool, simpleCode bool) {
 	M := Address(vParam("M"))
 	P := Address(vParam("P"))
 	n := vParam("n")
@@ -183,6 +187,16 @@ func vC02cycle(canary bool) {
 	vAssume(maxc >= 1)
 	s1 := vMkSim(M, M, M, P, maxc)
 	vHavocCore(s1)
+	if simpleCode {
+		// every cell is DAT, NOP or SPL with direct operands: a task queues
+		// 0, 1 or 2 successors and changes no cell
+		for i := Address(0); i < M; i++ {
+			op := s1.mem[i].Op
+			vAssume(vOr(op == DAT, vOr(op == NOP, op == SPL)))
+			s1.mem[i].AMode = DIRECT
+			s1.mem[i].BMode = DIRECT
+		}
+	}
 	for i := 0; i < n; i++ {
 		vHavocWarrior(s1, P)
 	}
